@@ -741,7 +741,7 @@ def opAdd (rec : St → Sx → Res) (st : St) (args : List Sx) : Res := do
     | some ss => pure (.str (String.join ss), st1)
     | Option.none => .error (.unsupported "+: str() of a float or compound value")
   else if vs.all isNum then
-    match numFold? .add (.int 0) vs with
+    match pySum? vs with
     | some v => pure (v, st1)
     | Option.none => .error (.unsupported "+: wide int with float")
   else .error (errA "TypeError: unsupported operand type(s) for +")
@@ -1099,7 +1099,7 @@ def opAverage (rec : St → Sx → Res) (st : St) (args : List Sx) : Res :=
     | .list _ [] => .error (errA "ZeroDivisionError")
     | .list _ items =>
       if !items.all isIntLike then .error (.unsupported "average of non-integers") else
-      match numFold? .add (.int 0) items with
+      match pySum? items with
       | some (.int s) =>
         (match toFloat? s, toFloat? items.length with
           | some x, some y => pure (.flt (x / y).toBits, st1)
